@@ -111,3 +111,57 @@ Example C06_quote_hypotheses_met :
   /\ [nm_table; nm_code; nm_fence; nm_blockquote; nm_hr; nm_list; nm_reference; nm_html_block; nm_heading; nm_lheading; nm_paragraph]
      = [nm_table; nm_code; nm_fence] ++ nm_blockquote :: [nm_hr; nm_list; nm_reference; nm_html_block; nm_heading; nm_lheading; nm_paragraph].
 Proof. exact quote_line_example. Qed.
+
+(* ---- containers within containers, any depth ----
+   For EVERY list cs of containers - block quote markers "> " and bullet markers "- " in any order - whose weight
+   (1 per quote, 2 per item) stays below maxNesting, every line s of the class above, every configuration whose block
+   chain is  table/code/fence*  blockquote  table/code/fence/hr*  list  (rules other than paragraph)*  paragraph ...,
+   any inline configuration and any env:  parse(prefix(cs) s LF)  is the paragraph of s wrapped in exactly those
+   containers, level by level (wrapc: quote = +1, item = +2; every map [0,1]; the paragraph tokens hidden exactly when
+   the paragraph sits directly in an item), and the inline token carries the children of the same inline_parse call as
+   parse(s LF).  Induction on cs; each container rule is run on a line that begins anywhere inside the source
+   (off_line) and hands the rest of the line to the nested block loop (Lemmas/NestLine.v). *)
+From MD Require Import Lemmas.NestLine.
+
+Theorem C06_containers_within_containers :
+  forall cfg rf cf lt s, line_ok s -> mem_z 13 s = false -> mem_z 0 s = false ->
+  forall RA RB RC RD, c_rules (p_block cfg) = RA ++ nm_blockquote :: RB ++ nm_list :: RC ++ nm_paragraph :: RD ->
+    Forall (fun n => n = nm_table \/ n = nm_code \/ n = nm_fence) RA ->
+    Forall (fun n => n = nm_table \/ n = nm_code \/ n = nm_fence \/ n = nm_hr) RB ->
+    Forall (fun n => str_eqb n nm_paragraph = false) RC ->
+    p_core cfg = [n_normalize; n_block; n_inline; n_text_join] ->
+  forall cs, weight cs < c_maxNesting (p_block cfg) ->
+  forall env,
+    parse cfg rf cf lt (prefix cs ++ s ++ [10]) env
+    = (do toks <- inline_parse (p_inline cfg) rf cf lt s env [];
+       Ok (wrapc s cs 0 false (join_children toks), env)).
+Proof. exact parse_nested. Qed.
+Print Assumptions C06_containers_within_containers.
+
+(* what wrapc says, for reading the theorem: one more container = the same tokens one (quote) or two (item) levels deeper *)
+Definition C06_wrapc_means :
+  forall s cs lv hid ch,
+    wrapc s (CQ :: cs) lv hid ch = bq_open_at lv :: wrapc s cs (lv + 1) false ch ++ [bq_close_at lv]
+    /\ wrapc s (CI :: cs) lv hid ch = ul_open_at lv :: li_open_at (lv + 1) :: wrapc s cs (lv + 2) true ch ++ [li_close_at (lv + 1); ul_close_at lv]
+    /\ wrapc s [] lv false ch = para_ch s lv ch
+  := fun s cs lv hid ch => conj eq_refl (conj eq_refl eq_refl).
+
+(* the nested block loop, for any containers in front of the rest of the line, from any well-placed state *)
+Theorem C06_nested_loop_any_containers :
+  forall cfg rf cf s, line_ok s ->
+  forall RA RB RC RD, c_rules cfg = RA ++ nm_blockquote :: RB ++ nm_list :: RC ++ nm_paragraph :: RD ->
+    Forall (fun n => n = nm_table \/ n = nm_code \/ n = nm_fence) RA ->
+    Forall (fun n => n = nm_table \/ n = nm_code \/ n = nm_fence \/ n = nm_hr) RB ->
+    Forall (fun n => str_eqb n nm_paragraph = false) RC ->
+  forall cs pre1 pre2 bs li lv d,
+    (forall x, In x pre2 -> x <> 9) -> lv + weight cs < c_maxNesting cfg -> (length cs <= d)%nat ->
+    rec_adds (tokenize cfg rf cf (S d)) pre1 pre2 (prefix cs ++ s) bs li lv (wrap s cs lv false).
+Proof. exact nest. Qed.
+Print Assumptions C06_nested_loop_any_containers.
+
+Example C06_nested_hypotheses_met :
+  [nm_table; nm_code; nm_fence; nm_blockquote; nm_hr; nm_list; nm_reference; nm_html_block; nm_heading; nm_lheading; nm_paragraph]
+  = [nm_table; nm_code; nm_fence] ++ nm_blockquote :: [nm_hr] ++ nm_list :: [nm_reference; nm_html_block; nm_heading; nm_lheading] ++ nm_paragraph :: []
+  /\ prefix [CQ; CI; CQ] ++ [102; 111; 111] ++ [10] = [62; 32; 45; 32; 62; 32; 102; 111; 111; 10]
+  /\ weight [CQ; CI; CQ] = 4.
+Proof. exact nested_example. Qed.
